@@ -30,6 +30,8 @@ def matches_pattern(path: str, pattern: str) -> bool:
     Returns:
         True if path matches pattern.
     """
+    if pattern.startswith("**/") and matches_pattern(path, pattern[3:]):
+        return True
     if pattern.endswith("/"):
         return _matches_directory_pattern(path, pattern)
     return fnmatch.fnmatch(path, pattern) or fnmatch.fnmatch(str(Path(path)), pattern)
@@ -47,9 +49,9 @@ def _matches_directory_pattern(path: str, pattern: str) -> bool:
     """
     dir_pattern = pattern.rstrip("/")
     path_parts = Path(path).parts
-    if dir_pattern in path_parts:
+    if dir_pattern in path_parts[:-1]:
         return True
-    return fnmatch.fnmatch(path, dir_pattern + "*")
+    return fnmatch.fnmatch(path, dir_pattern + "/*")
 
 
 def extract_patterns_from_content(content: str) -> list[str]:
